@@ -165,6 +165,7 @@ where
         _ => return Err("bad-op".into()),
     };
     let mut e = get_encoder::<T>(encoding, &d).map_err(|_| "ERR:enc".to_string())?;
+    e.put(&[]).map_err(|_| "ERR:enc".to_string())?;
     let mut pos = 0;
     for c in chunks(n) {
         e.put(&vals[pos..pos + c]).map_err(|_| "ERR:enc".to_string())?;
@@ -267,6 +268,7 @@ fn float_rt<T: DataType, F: Fn(&T::T) -> u64>(enc: &str, d: ColumnDescPtr, vals:
         _ => return Err("bad-op".into()),
     };
     let mut e = get_encoder::<T>(encoding, &d).map_err(|_| "ERR:enc".to_string())?;
+    e.put(&[]).map_err(|_| "ERR:enc".to_string())?;
     let mut pos = 0;
     for c in chunks(n) {
         e.put(&vals[pos..pos + c]).map_err(|_| "ERR:enc".to_string())?;
@@ -1148,12 +1150,12 @@ fn gen_unit(rng: &mut Rng) -> (String, String) {
                     if rng.chance(2, 3) {
                         ("dba", "ba".into(), show_byte_arrays(&gen_byte_arrays(rng, n.min(200), None)))
                     } else {
-                        let f = rng.usize(6);
+                        let f = 1 + rng.usize(6);
                         ("dba", format!("flba{}", f), show_byte_arrays(&gen_byte_arrays(rng, n.min(200), Some(f))))
                     }
                 }
                 13 => {
-                    let f = *rng.pick(&[0usize, 1, 2, 3, 4, 5, 8, 16]);
+                    let f = *rng.pick(&[1usize, 2, 3, 4, 5, 8, 16]);
                     let e = *rng.pick(&["plain", "bss", "dict"]);
                     (e, format!("flba{}", f), show_byte_arrays(&gen_byte_arrays(rng, n.min(150), Some(f))))
                 }
